@@ -60,7 +60,7 @@ func NewEngine(repo string) *Engine {
 		assumed: map[string]bool{}, dropped: map[string]bool{}, strLits: map[string]*Term{}, tagIDs: map[string]int64{}}
 }
 
-var jivaPkgs = []string{"replica", "controller", "rpc", "sync", "util", "controller/rest", "replica/rest", "backend/remote", "app", "types", "replica/rpc", "replica/client", "controller/client", "backend/dynamic"}
+var jivaPkgs = []string{"replica", "controller", "rpc", "sync", "util", "controller/rest", "replica/rest", "backend/remote", "app", "types", "replica/rpc", "replica/client", "controller/client", "backend/dynamic", "sync/agent"}
 
 func (e *Engine) Load() error {
 	e.fset = token.NewFileSet()
